@@ -3,7 +3,8 @@ site, no dynamic call in any generated body or generated signature of a static-d
 import re
 
 from ..common import Report
-from ..corpus import load, load_repo_tests
+from ..corpus import load, load_repo_tests, load_repo_examples
+from ..docgen import load_repo_docs
 from ..crossgen import load_cross
 from ..deleg import all_calls, walk, real_adjusts, callee_of
 from ..wrules import (is_mock_impl, FnModView, TraitView, ImplBlockView, trait_methods, impl_methods, in_macro, last_seg,
@@ -98,6 +99,8 @@ def run(tier):
     loaded += [(cfg, load_cross(rep, cfg, tier)) for cfg in configs]
     if tier == "thorough":
         loaded.append(("unimock_test", load_repo_tests(rep)))
+        loaded += [("unimock_test", ld) for ld in load_repo_examples(rep)]
+        loaded.append(("unimock_test", load_repo_docs(rep)))
     for cfg, ld in loaded:
         crate = ld.crate
         for exp in crate.expansions:
